@@ -37,6 +37,7 @@ class KVStream(Stream):
         lastmeta = {}     # path -> {version: flags} at the previous metadata read
         named = {}        # path -> version numbers named by the requests since then
         wild = set()      # paths whose key was deleted since then
+        floor_unknown = set()   # paths whose window changed inside a concurrent phase (listing not predicted)
 
         def fail(what, sig, o, a):
             out.append({"what": what, "signature": sig, "op": o, "impl": a})
@@ -66,6 +67,37 @@ class KVStream(Stream):
                         written.pop((p, v), None)
                 elif res.startswith("err:cas-mismatch") and cas not in ("-", "bad") and int(cas) == c:
                     fail("%s with cas=%s (the current version) was refused" % (k, cas), "seq-cas-refused-current", o, a)
+            elif k == "conc":
+                # a concurrent phase: f[1] = thread requests, f[3] = their answers.  Successful writes must carry the next
+                # numbers; afterwards the implied current version, the written data and the window floor are carried on,
+                # so that the follow-up requests and observations are checked like any sequential history
+                tops = [t.split(";") for t in f[1].split("|")]
+                tres = f[3].split("|")
+                acked = {}
+                for t, r in zip(tops, tres):
+                    if t[0] in ("write", "patch") and _ok_version(r) is not None:
+                        acked.setdefault(t[1], []).append((_ok_version(r), t))
+                    if t[0] in ("metawrite", "metapatch") and not r.startswith("err") and r != "notfound" and t[2] != "-":
+                        keymax[t[1]] = int(t[2]) % (1 << 32)
+                        floor_unknown.add(t[1])
+                    if t[0] == "metadelete":
+                        floor_unknown.add(t[1])
+                    if len(t) > 1:
+                        wild.add(t[1])
+                for p, lst in acked.items():
+                    c = cur.get(p, 0)
+                    vs = sorted(v for v, _ in lst)
+                    if vs != list(range(c + 1, c + 1 + len(vs))):
+                        fail("concurrent successful writes on %s were answered %s, current version before was %d" % (p, vs, c),
+                             "seq-version-not-consecutive", o, a)
+                    for v, t in sorted(lst, key=lambda x: x[0]):
+                        mx = max(keymax.get(p, 0), cfgmax) or 10
+                        floor[p] = max(floor.get(p, 1), v - mx + 1, 1)
+                        if t[0] == "write":
+                            written[(p, v)] = t[3]
+                        else:
+                            written.pop((p, v), None)
+                    cur[p] = max([c] + vs)
             elif k in ("deletev", "undelete", "destroy") and f[2] != "-":
                 named.setdefault(f[1], set()).update(int(x) for x in f[2].split(","))
             elif k == "delete":
@@ -78,7 +110,7 @@ class KVStream(Stream):
                 keymax.pop(p, None)
                 for key in [x for x in written if x[0] == p]:
                     del written[key]
-            elif k == "metawrite" and not res.startswith("err"):
+            elif k in ("metawrite", "metapatch") and not res.startswith("err") and res != "notfound":
                 if f[2] != "-":
                     keymax[f[1]] = int(f[2]) % (1 << 32)
             elif k == "confwrite" and not res.startswith("err"):
@@ -89,6 +121,12 @@ class KVStream(Stream):
                 parts = res.split(":")
                 listed = [] if parts[7] == "-" else [int(x.split("/")[0]) for x in parts[7].split(",")]
                 flags = {} if parts[7] == "-" else {int(x.split("/")[0]): x.split("/", 1)[1] for x in parts[7].split(",")}
+                resync = p in floor_unknown
+                if resync:
+                    # the window moved inside a concurrent phase: take the floor from this listing, check again from here on
+                    floor[p] = min(listed) if listed else cur.get(p, 0) + 1
+                    keymax[p] = int(parts[3].split("=")[1])
+                    floor_unknown.discard(p)
                 if p in lastmeta and p not in wild:
                     for x in sorted(set(flags) | set(lastmeta[p])):
                         if flags.get(x) != lastmeta[p].get(x) and x not in named.get(p, ()) and \
@@ -102,7 +140,7 @@ class KVStream(Stream):
                 want = list(range(floor.get(p, 1), c + 1))
                 if parts[1] != "cur=%d" % c:
                     fail("metadata reports %s, the successful writes imply %d" % (parts[1], c), "seq-current-wrong", o, a)
-                elif listed != want:
+                elif listed != want and not resync:
                     fail("metadata lists versions %s, the window arithmetic keeps exactly %s" % (listed, want),
                          "seq-window-wrong", o, a)
             elif k == "read" and res.startswith("ok:"):
@@ -156,10 +194,10 @@ class Conc(KVStream):
             "not reaching a gate within 30 ms is blocked on the key lock); predicate: exactly one cas writer succeeds "
             "when cas = current version, none when stale, successful writes numbered consecutively; the recorded "
             "answers + final observations + real-time precedence pairs are given to the driver, which searches a "
-            "linearization under the sequential model ('lin')")
-
-    def case_predicate(self, ops, impls):
-        return []
+            "linearization under the sequential model ('lin'); 45% of the schedules also carry a metadata PATCH or PUT thread "
+            "on the contended key; after the phase: the current version must equal the number of acknowledged writes, every "
+            "acknowledged write's version must read its own data, then follow-up writes (the same cas again, a plain write) "
+            "and all observations, checked by the per-case predicate (consecutive numbers, cas exactness, read v = data of v)")
 
     def predicate(self, op, impl):
         r = Stream.predicate(self, op, impl)
@@ -168,6 +206,17 @@ class Conc(KVStream):
         if op.startswith("conc\t") and impl.split("!VIOL:", 1)[0] != "lin":
             return {"what": "harness did not record the concurrent history", "signature": "conc-harness"}
         return None
+
+
+class ConcDirected(Conc):
+    name = "kv2-conc-directed"
+    testname = "TestVerifC14ConcDirected"
+    rule = ("directed schedules on one key with two versions, transactional and non-transactional storage: a holder thread "
+            "(metadata PATCH max_versions / metadata PATCH custom_metadata with metadata_cas / metadata PUT) is allowed to "
+            "perform exactly j of its storage operations (j = 0 .. all) and is then kept parked while a runner thread (cas "
+            "write, plain write, delete latest, destroy, metadata PUT, data patch) runs to completion unless it blocks on the "
+            "key lock; then both finish; and the mirror image (the runner parked after j of its operations, holding the key "
+            "lock, while the metadata handler runs as far as it can); same predicates, linearization search, follow-up requests and observations as kv2-conc")
 
 
 class Cold(Stream):
@@ -189,7 +238,7 @@ class Cold(Stream):
 
 class C14(PropCheck):
     pid = "C14"
-    streams = [Seq(), Fault(), Conc(), Cold()]
+    streams = [Seq(), Fault(), Conc(), ConcDirected(), Cold()]
     assumptions = [
         "fewer than 2^32 versions per key (the uint32 truncation inside AddVersion is not modelled); cas and version "
         "numbers of requests within int64",
